@@ -17,12 +17,13 @@ EXPLANATION = (
     "IncrementalOptimizerMixin are mixed (in an analysis-side probe class) into a back-end whose verdicts and "
     "models come from an exhaustive search over the small domain the scenario's assertions confine the "
     "symbols to; optimize / lexicographic_optimize / boxed_optimize / pareto_optimize are interpreted with the "
-    "linear and the binary strategy on six scenarios (integer boxes and a diagonal constraint, an unsatisfiable "
-    "set, unsigned and signed bit-vector objectives, weighted soft clauses) and the returned cost, lexicographic "
+    "linear and the binary strategy on ten scenarios (integer boxes and a diagonal constraint, an unsatisfiable "
+    "set, unsigned and signed bit-vector objectives, signed fronts with negative and dominated points enumerated "
+    "from either end, min-max / max-min goals, weighted soft clauses) and the returned cost, lexicographic "
     "vector and Pareto front are compared with the optima computed by enumeration; the returned model satisfies "
-    "the assertions with that cost; 'no solution' exactly for the unsatisfiable set; solver.assertions is what "
-    "it was before the call (R4).  In every optimisation routine each path from _setup()/push()/"
-    "_pareto_setup() to a normal return passes the matching close call (R1, CFG must-pass-through).")
+    "the assertions with that cost; 'no solution' exactly for the unsatisfiable set; after every call "
+    "solver.assertions is what it was before and the back-end's own stack has no level left open - every push / "
+    "_setup of the search was matched on the path actually taken (R4).")
 NOT_DECIDED = ["scenarios outside the menu; Real objectives (the routines are documented to diverge on them); "
                "native optimisers (OptiMathSAT, z3 optimize) behind their converters"]
 
@@ -39,53 +40,6 @@ REF_CMP = {
 def run(ctx):
     repo = get_repo()
     ctx.analysed["modules"] = ["pysmt/optimization/optimizer.py"]
-
-    if ctx.want("R1"):
-        rs = ctx.rule("R1", "push/pop bracket on every normal path of every optimisation routine")
-        for q in (EXT, INC, SUA):
-            ci = repo.cls(q)
-            for nm in ci.order:
-                f = ci.own_func(nm)
-                if f is None or nm in OPEN or nm in OPEN.values():
-                    continue
-                opens = [c for c in calls_in(f) if attr_tail(c) in OPEN and isinstance(c.func, ast.Attribute)
-                         and isinstance(c.func.value, ast.Name) and c.func.value.id == "self"]
-                if not opens:
-                    continue
-                cfg = CFG(f)
-                for oc in opens:
-                    close = OPEN[attr_tail(oc)]
-                    on = [n for n in cfg.nodes if n.ast is not None and n.kind == "stmt" and any(c is oc for c in calls_in(n.ast))]
-                    if not on:
-                        rs.unrec("%s.%s: open call not a plain statement" % (q, nm))
-                        continue
-                    isclose = lambda n, close=close: n.ast is not None and n.kind == "stmt" and any(
-                        attr_tail(c) == close for c in calls_in(n.ast))
-                    if cfg.must_pass(on[0].id, cfg.ret.id, isclose, follow=normal_only):
-                        rs.ok({"routine": "%s.%s" % (q.split(".")[-1], nm), "open": attr_tail(oc), "close": close,
-                               "all_normal_paths": True})
-                    else:
-                        p = cfg.path(on[0].id, cfg.ret.id, avoid=isclose, follow=normal_only) or []
-                        exitst = [x for x in p if isinstance(x.ast, ast.Return)]
-                        ex = short(exitst[-1].ast) if exitst else "end of function"
-                        ctx.finding(rs, "%s.%s|%s-without-%s|%s" % (q, nm, attr_tail(oc), close, ex),
-                                    "%s.%s: a path from self.%s() reaches `%s` without self.%s(): the solver keeps one "
-                                    "extra level on its assertion stack (and the constraints added for the search)"
-                                    % (q.split(".")[-1], nm, attr_tail(oc), ex, close),
-                                    method_loc(repo, q, exitst[-1].ast if exitst else f))
-        # the bracket helpers themselves
-        for nm, want in (("_setup", "push"), ("_cleanup", "pop"), ("_pareto_setup", "push"), ("_pareto_cleanup", "pop")):
-            cls, f = repo.find_method(EXT, nm)
-            if f is None:
-                ctx.error("R1", "%s vanished" % nm)
-                continue
-            calls = [attr_tail(c) for c in calls_in(f) if isinstance(c.func, ast.Attribute) and norm(c.func.value) == "self"]
-            if calls == [want]:
-                rs.ok({"helper": nm, "does": "self.%s()" % want})
-            else:
-                ctx.finding(rs, "%s.%s|helper" % (EXT, nm), "%s performs %s, expected exactly one self.%s()"
-                            % (nm, calls, want), method_loc(repo, cls, f))
-        ctx.floor(rs, 8)
 
     if ctx.want("R4"):
         rs = ctx.rule("R4", "optimisers interpreted over a brute-force back-end: true optimum / lexicographic optimum / Pareto front, stack restored")
